@@ -23,4 +23,4 @@ POOLFILES=$(cd "$REPO" && grep -rl --include='*.go' 'sync\.Pool' . 2>/dev/null |
   conntrack/conntrack.go \
   'internal/martian/h2/relay.go::::@range|sendQueuedFramesUnderWindowSize|r.outputBuffers|func(k uint32) string { return fmt.Sprintf("%08d", k) }' \
   pac/pool.go \
-  'internal/martian/mitm/mitm.go::c\.certs\.(Get|Add)\('
+  'internal/martian/mitm/mitm.go::c\.certs\.(Get|Add)\(|CreateCertificate\(|append\(|copy\('
